@@ -137,3 +137,13 @@ def interned(a):
         _POOL.clear()
     _POOL[k] = (a, a.copy())
     return a
+
+
+def real_seed(rng):
+    """an explicit seed for real-generator runs: 0 (falsy!) and very large integers are seeds like any other"""
+    r = rng.random()
+    if r < 0.15:
+        return 0
+    if r < 0.25:
+        return 2**64 + rng.randint(0, 10**6)
+    return rng.randint(1, 10**6)
